@@ -42,6 +42,8 @@ type Case struct {
 	History []json.RawMessage `json:"history,omitempty"`
 	// Dirty: how Data was derived from an example (dirty.go)
 	Dirty *DirtySpec `json:"dirty,omitempty"`
+	// Tampered: Data is an envelope whose document was edited after calculation (tampered.go)
+	Tampered string `json:"tampered,omitempty"`
 }
 
 func exampleFiles(repo string) []string {
@@ -247,6 +249,13 @@ func Run(c *core.Ctx) int {
 			dirtyReplay(c, rc)
 			return c.Finish("replay of one dirty input", nil)
 		}
+		if rc.Tampered != "" {
+			c.Eval("tampered:"+rc.Name, true)
+			if diff, _ := validateUnchanged(rc.Data); diff != "" {
+				c.Fail("", "validate/digest/verify/extract changed an envelope whose document was edited after calculation ("+rc.Tampered+"): "+diff, rc)
+			}
+			return c.Finish("replay of one edited envelope", nil)
+		}
 	} else {
 		var invoices []Case
 		for _, f := range exampleFiles(c.Repo) {
@@ -288,6 +297,9 @@ func Run(c *core.Ctx) int {
 		// addon combinations and transplanted collections (history.go)
 		cases = append(cases, addonCombinations(invoices, addons)...)
 		cases = append(cases, transplants(invoices)...)
+		// tax summaries that arrive in the document: the calculated summary of every example stored in a
+		// preceding reference / the payment lines of every other example of its directory (stored.go)
+		cases = append(cases, storedSummaries(examples, c.Pick(2, 1))...)
 		// the customer-rates family (customerrates.go): grid + random documents
 		for i, sp := range crSpecs(c.Rng, c.Pick(400, 20000)) {
 			sp := sp
@@ -369,12 +381,14 @@ func Run(c *core.Ctx) int {
 			kind = "customer-rates"
 		} else if strings.Contains(cs.Name, "@") {
 			kind = "example+addon-combination"
+		} else if strings.Contains(cs.Name, "~") {
+			kind = "example+stored-summary"
 		} else if strings.Contains(cs.Name, "&") {
 			kind = "example+transplant"
 		} else if strings.Contains(cs.Name, "+") {
 			kind = "example+addon"
 		}
-		if cs.Doc == nil && cs.CR == nil && rc.Data == nil {
+		if cs.Doc == nil && cs.CR == nil && rc.Data == nil && !strings.Contains(cs.Name, "~") {
 			pool, poolFirst = append(pool, cs), append(poolFirst, sig(env))
 		}
 		c.Count("kind:"+kind, 1)
@@ -442,10 +456,15 @@ func Run(c *core.Ctx) int {
 				continue
 			}
 		}
+		// (2a) the same for the envelope with one member of its document removed or altered after
+		// calculation (tampered.go): the examples and the examples with an addon
+		if cs.Doc == nil && cs.CR == nil && rc.Data == nil && !strings.ContainsAny(cs.Name, "@&~") {
+			tamperedValidate(c, cs, b1)
+		}
 		// (2b) the same for the envelope once it is signed and carries header entries in an order that is
 		// not the sorted one (stamps are only allowed on signed envelopes): read, validate, digest, verify
 		// with and without the key, extract — the bytes written afterwards are the bytes read
-		if i%3 == 0 || (cs.Doc == nil && !strings.ContainsAny(cs.Name, "@&")) {
+		if i%3 == 0 || (cs.Doc == nil && !strings.ContainsAny(cs.Name, "@&~")) {
 			e3 := new(gobl.Envelope)
 			if json.Unmarshal(b1, e3) == nil && e3.Validate() == nil {
 				var serr error
